@@ -149,6 +149,7 @@ func c09Parse(b []byte) (frames []c09Frame, bad string) {
 
 // c09Cover accumulates what a flight put on the wire for stream range [base, base+n).
 type c09Cover struct {
+	ref      []byte // the stream content when it is not c09F (ref[i] = byte at offset base+i)
 	base, n  int
 	cnt      []uint8
 	nCrypto  int
@@ -164,6 +165,13 @@ type c09Cover struct {
 
 func c09NewCover(base, n int) *c09Cover {
 	return &c09Cover{base: base, n: n, cnt: make([]uint8, n), order: true}
+}
+
+func (c *c09Cover) at(abs int) byte {
+	if c.ref != nil {
+		return c.ref[abs-c.base]
+	}
+	return c09F(abs)
 }
 
 // add checks one payload; kind == "" means it is fine.
@@ -211,19 +219,19 @@ func (c *c09Cover) add(p []byte) (kind, msg string) {
 			}
 			for i, x := range f.Data {
 				abs := int(f.Off) + i
-				if x != c09F(abs) {
+				if x != c.at(abs) {
 					k := "wrong-byte"
 					for d := -70; d <= 70; d++ {
-						if d != 0 && abs+d >= 0 && x == c09F(abs+d) && (i+1 >= len(f.Data) || f.Data[i+1] == c09F(abs+d+1)) {
+						if d != 0 && abs+d >= c.base && abs+d+1 < c.base+c.n && x == c.at(abs+d) && (i+1 >= len(f.Data) || f.Data[i+1] == c.at(abs+d+1)) {
 							k = "shifted"
 							msg = fmt.Sprintf(" (it is the stream byte of offset %d: shifted by %d)", abs+d, d)
 							break
 						}
 					}
-					if x == 0 {
+					if x == 0 && c.ref == nil {
 						k = "zero-extended"
 					}
-					return k, fmt.Sprintf("CRYPTO frame [%d,%d): byte at stream offset %d is 0x%02x, the ClientHello has 0x%02x there%s", f.Off, f.Off+f.Len, abs, x, c09F(abs), msg)
+					return k, fmt.Sprintf("CRYPTO frame [%d,%d): byte at stream offset %d is 0x%02x, the ClientHello has 0x%02x there%s", f.Off, f.Off+f.Len, abs, x, c.at(abs), msg)
 				}
 				j := abs - c.base
 				if c.cnt[j] > 0 {
@@ -525,6 +533,7 @@ type c09Acc struct {
 	out                                    *explore.OutcomeSet
 	exh, red, none, capped                 int64
 	devs                                   [4]int64
+	plain                                  int64 // configurations of parts without draws
 	maxDraws                               int
 	samples                                []any
 }
@@ -550,18 +559,27 @@ func (a *c09Acc) note(r c09EnumResult) {
 }
 
 func (a *c09Acc) finish(rep *explore.Report, rule, bound string) *explore.Report {
+	if a.exh > 0 {
+		a.out.Add("draws: every draw sequence enumerated (exhaustive)")
+	}
+	for d := 1; d <= 3; d++ {
+		if a.devs[d] > 0 {
+			a.out.Add(fmt.Sprintf("draws: bounded, <= %d non-minimal draws over representative values", d))
+		}
+	}
 	rep.Outcomes = a.out.List()
 	rep.OutcomesN = int64(len(rep.Outcomes))
-	rep.States = rep.OutcomesN
+	// states = configurations handled by this shard, transitions = executions of the real code
+	rep.States = a.exh + a.red + a.none + a.plain
 	rep.Rule = rule
 	rep.Bound = bound
-	if a.exh+a.red > 0 {
-		rep.Bound += fmt.Sprintf("; draws of this shard: %d configurations enumerated exhaustively, %d deviation-bounded over representative values (<=3/2/1 non-minimal draws: %d/%d/%d configurations; %d hit the execution cap), %d without any draw; longest draw sequence %d", a.exh, a.red, a.devs[3], a.devs[2], a.devs[1], a.capped, a.none, a.maxDraws)
-	}
 	if a.capped > 0 {
 		rep.Caps = append(rep.Caps, "draw-cap")
 		rep.Exhaustive = false
 	}
 	rep.Samples = a.samples
+	if a.exh+a.red > 0 {
+		rep.Samples = append([]any{fmt.Sprintf("draw statistics of one shard: %d configurations enumerated exhaustively, %d deviation-bounded over representative values (<=3/2/1 non-minimal draws: %d/%d/%d configurations; %d hit the execution cap), %d without any draw; longest draw sequence %d", a.exh, a.red, a.devs[3], a.devs[2], a.devs[1], a.capped, a.none, a.maxDraws)}, rep.Samples...)
+	}
 	return rep
 }
